@@ -349,8 +349,8 @@ package bondmachine
 //@   uses nameOfInput, nameOfOutput, nameOfProcInput, nameOfProcOutput, nameLiterals
 //@   frameonly
 //@   loop 1: modifies nothing
-//@   loop 1: invariant e0: e0 == "" || (e0 == endpoints[0] && (exists q int :: 0 <= q && q < len(bmach.Internal_outputs) && bondName(bmach.Internal_outputs[q]) == e0))
-//@   loop 1: invariant e1: e1 == "" || (e1 == endpoints[1] && (exists q int :: 0 <= q && q < len(bmach.Internal_outputs) && bondName(bmach.Internal_outputs[q]) == e1))
+//@   loop 1: invariant e0: e0 == "" || (e0 == endpoints[0] && (nameKind(e0) == 0 || nameKind(e0) == 3))
+//@   loop 1: invariant e1: e1 == "" || (e1 == endpoints[1] && (nameKind(e1) == 0 || nameKind(e1) == 3))
 //@   loop 2: modifies spare(opcodes)
 //@   loop 2: invariant own: cap(opcodes) == 0 || freshl(opcodes)
 //@   loop 3: modifies nothing
@@ -365,8 +365,8 @@ package bondmachine
 //@   uses nameOfInput, nameOfOutput, nameOfProcInput, nameOfProcOutput, nameLiterals
 //@   frameonly
 //@   loop 1: modifies nothing
-//@   loop 1: invariant e0: e0 == "" || (e0 == endpoints[0] && (exists q int :: 0 <= q && q < len(bmach.Internal_outputs) && bondName(bmach.Internal_outputs[q]) == e0))
-//@   loop 1: invariant e1: e1 == "" || (e1 == endpoints[1] && (exists q int :: 0 <= q && q < len(bmach.Internal_outputs) && bondName(bmach.Internal_outputs[q]) == e1))
+//@   loop 1: invariant e0: e0 == "" || (e0 == endpoints[0] && (nameKind(e0) == 0 || nameKind(e0) == 3))
+//@   loop 1: invariant e1: e1 == "" || (e1 == endpoints[1] && (nameKind(e1) == 0 || nameKind(e1) == 3))
 //@   loop 2: modifies spare(opcodes)
 //@   loop 2: invariant own: cap(opcodes) == 0 || freshl(opcodes)
 //@   loop 3: modifies nothing
